@@ -40,6 +40,7 @@ def main():
             meta['applied_with_fuzz'] = (rc == 0)
         if rc != 0:
             sh('git -C /repo checkout -- .')
+            sh('git -C /repo clean -fdq -- supervisor')
             meta['apply_to_repo'] = out[-300:]
         else:
             saved = {c: open('/verif/evidence/%s.json' % c).read() for c in checks if os.path.exists('/verif/evidence/%s.json' % c)}
@@ -64,6 +65,7 @@ def main():
                             break
             finally:
                 sh('git -C /repo checkout -- .')
+                sh('git -C /repo clean -fdq -- supervisor')          # .rej/.orig left by a fuzzy apply
                 sh('/venv/bin/python harness/extract.py', '/verif')     # Generated/* back to the real tree
                 for c, txt in saved.items():                           # evidence files describe the real tree only
                     open('/verif/evidence/%s.json' % c, 'w').write(txt)
